@@ -146,6 +146,12 @@ func NewQueue(dirPath string, pageSize int64) (Queue, error) {
 	q.indexPageFct = indexPageFct
 
 	hasMeta := fileutil.Exist(filepath.Join(dirPath, metaPath, fmt.Sprintf("%d.bat", metaPageIndex)))
+	if hasMeta {
+		// NOTE: an index page is acquired right after the meta page is initialized and the current one is never removed,
+		// a meta page without any index page was created(zero filled = sequence 0) but not initialized completely.
+		indexPages, _ := fileutil.ListDir(filepath.Join(dirPath, indexPath))
+		hasMeta = len(indexPages) > 0
+	}
 
 	// init meta page factory
 	var metaPageFct page.Factory
